@@ -38,7 +38,9 @@ func manySigs(n int) []tls.SignatureScheme {
 }
 
 func c08Values() []extVal {
-	E := func(name, rt string, mk func() tls.TLSExtension) extVal { return extVal{Name: name, Mk: mk, RoundTyp: rt} }
+	E := func(name, rt string, mk func() tls.TLSExtension) extVal {
+		return extVal{Name: name, Mk: mk, RoundTyp: rt}
+	}
 	Z := func(name, rt string, mk func() tls.TLSExtension) extVal {
 		return extVal{Name: name, Mk: mk, RoundTyp: rt, ZeroOK: true}
 	}
@@ -67,7 +69,9 @@ func c08Values() []extVal {
 		E("sigalgs:9", "grease16", func() tls.TLSExtension {
 			return &tls.SignatureAlgorithmsExtension{SupportedSignatureAlgorithms: append([]tls.SignatureScheme{}, sigAlgsFull...)}
 		}),
-		E("sigalgs:100", "grease16", func() tls.TLSExtension { return &tls.SignatureAlgorithmsExtension{SupportedSignatureAlgorithms: manySigs(100)} }),
+		E("sigalgs:100", "grease16", func() tls.TLSExtension {
+			return &tls.SignatureAlgorithmsExtension{SupportedSignatureAlgorithms: manySigs(100)}
+		}),
 		E("sigalgscert:4", "grease16", func() tls.TLSExtension {
 			return &tls.SignatureAlgorithmsCertExtension{SupportedSignatureAlgorithms: append([]tls.SignatureScheme{}, sigAlgsFull[:4]...)}
 		}),
